@@ -630,6 +630,14 @@ pub fn run(o: &Opts, rep: &mut Report) {
                             absorb(&mut rep, &prop, scn, &out, name, &id, &known, i == 0 && w == 0);
                         }
                     }
+                    // free-running stress: real parallelism, the hook only injects short random spins
+                    let free_runs: u64 = if thorough { 400 } else { 10 };
+                    for i in 0..free_runs {
+                        let out = run_one(scn, Strategy::Free);
+                        let id = format!("E4f:{}:{}:{}:free:{}", prop, seed, si, i);
+                        absorb(&mut rep, &prop, scn, &out, "free-running", &id, &known, false);
+                        rep.bump("free-running executions", 1);
+                    }
                     // preemption-bounded enumeration (bound 2 in thorough, 1 in quick)
                     let bound = if thorough { 2 } else { 1 };
                     let cap: u64 = if thorough { 60_000 } else { 1_500 };
